@@ -150,7 +150,7 @@ func init() {
 				"span_span_valid": 500, "span_span_zero": 25, "span_span_negative": 20, "span_span_non_numeric": 40, "span_span_over_max": 12,
 				"col_span_checked": 800, "colgroup_span_checked": 400,
 				// running elements (position: running()): placeholders by context, areas walked
-				// (fam_running: the 17 enumerated cases of the open finding F-C09-running-inline-split-by-block are known hits, not counted)
+				// (the 17 enumerated cases of the former finding F-C09-running-inline-split-by-block, repaired by 7022988, count again)
 				"fam_running": nRunning - 40, "running_placeholders": 3000, "running_areas": 3000, "running_elements_checked": 3000,
 				"running_placeholder_in_block_fc": 800, "running_placeholder_in_inline_fc": 1000, "running_placeholder_flex_grid_item": 200,
 				"running_placeholder_in_table_part": 700, "running_only_blocks_beside_inline_content": 200, "running_nested": 250,
@@ -165,7 +165,7 @@ func init() {
 			"a table-internal child of a flex container is accepted either blockified (css-flexbox-1 §4) or, as webrender does, kept inside an anonymous table that is the flex item",
 			"run-in, ruby and display:contents are not generated",
 			"running elements (css-gcpm-3 §1.2): position: running() is generated on div / span elements with any display value, not on HTML table parts, replaced elements, html / body or pseudo-elements, and never together with float (how the two combine is not defined); the display of a running element is the specified one (CSS 2.1 §9.7 names absolute and fixed only); BuildFormattingStructure leaves the content of a running box unformed, so the check forms it the way boxes.ContentToBoxes / layout's margin boxes do (bo.Deepcopy, position set to static on a copy of the style, bo.CreateAnonymousBox over an anonymous block of the root box holding it) and judges every clause there; the kind of a placeholder is not judged where it stands (a running table is a bare table box there, its wrapper is supplied in the area), the columns after a running column group are renumbered from wherever webrender resumes, the rows of a running row group / cells of a running row take no part in the slot check of the table they stand in; the anonymous block webrender wraps around an inline-level flex / grid item carries the item's style incl. position: the running box met again inside it is the same placeholder (running_item_wrapper_unwrapped)",
-			"open finding F-C09-running-inline-split-by-block (matched by its own signature, stays in the generated domain: the 17 cases of the enumerated running family with an inline running element holding a block, and about 45 of the 12 000 random trees -- 19 of 20 random running inline elements are given inline content only): BlockInInline splits a running inline box around an in-flow block-level box inside it",
+			"finding F-C09-running-inline-split-by-block (repaired in /repo by 7022988; history: the 17 cases of the enumerated running family with an inline running element holding a block, and about 45 of the 12 000 random trees -- 19 of 20 random running inline elements are given inline content only): BlockInInline splits a running inline box around an in-flow block-level box inside it",
 			"span attributes: the oracle reads the generator's attribute values (the parsed DOM must carry the same strings, else the case is inconclusive); colspan / rowspan are generated on elements whose computed display is table-cell only, span on <col> / <colgroup> only (an anonymous cell or a column group of another element reading such an attribute is not judged); a <colgroup> has either a span attribute or <col> children, never both; on attribute values with characters after the digits, more than 18 digits, non-ASCII white space, and on a negative rowspan, webrender reads the attribute with a strict integer parser where HTML parses a prefix / clamps / rejects: the box tree stays well formed, the difference is reported, not judged; a ::before/::after with display table-column on a <colgroup span> makes the expected number of columns undefined (range only)",
 			"open finding F-C09-colgroup-span-lost-to-generated-content (matched by its own signature, stays in the generated domain: about 15 of the 12 000 random trees): <colgroup span=N> with ::before/::after content stands for 1 or 2 columns instead of N",
 			"footnotes (css-gcpm-3 §2): float:footnote is generated on elements other than the root, not on ::before/::after (webrender leaves such a pseudo-element in the flow; undefined in GCPM); BuildFormattingStructure returns footnote boxes before anonymous-box fix-up, so the check forms the footnote area itself the way layoutContext.updateFootnoteArea does (bo.CreateAnonymousBox over an anonymous block of the root box whose children are bo.Deepcopy of the footnote boxes reached through ::footnote-call links, nested footnotes in a further area); footnote-display:compact may give a block or an inline box (UA's choice per GCPM); a footnote element keeps the marker of a list-item display (blockified per CSS 2.1 §9.7); ::footnote-marker is not judged on replaced elements and <img>",
